@@ -7,6 +7,7 @@ Dial, Accept and Close.  Residue (not covered): that the Go scheduler eventually
 behind deadlines, and the atomicity of the modelled steps themselves.
 -/
 import FhVerif.Proofs.Pipe
+import FhVerif.Gen.PipeWrite
 
 namespace Fh.Props.C33
 open Fh Fh.Model Fh.Model.Pipe Fh.Proofs.Pipe
@@ -136,6 +137,29 @@ theorem after_close_drain_then_eof (cap : Nat) (es es2 : List Ev) (e : End)
   refine ⟨pre, post, by rw [hf, h1], h2, h3, h4, h6, ?_⟩
   rw [h5]
   exact reads_prefix_of_writes cap es e
+
+/-- Regenerated structural fact: pipeConn.Write hands AT MOST ONE buffer to the channel per call and reports
+    either (len(p), nil) or (0, err) — exactly the shape of `Dir.write` (whole payload or nothing).  It has no loop,
+    calls no other method of the connection, contains the two send statements of the single non-blocking/blocking
+    attempt, and every failing return reports 0 bytes.  A Write that can succeed partially (several buffers per
+    call) no longer satisfies this; then the count it returns would have to be modelled and proved. -/
+theorem write_is_one_send_or_nothing :
+    Gen.pipeWrite_loops = 0 ∧ Gen.pipeWrite_selfCalls = [] ∧ Gen.pipeWrite_sendStmts = 2 ∧
+    Gen.pipeWrite_returns = ["0, ErrConnectionClosed", "0, ErrTimeout", "0, ErrConnectionClosed", "len(p), nil"] := by
+  decide
+
+/-- model side of the same fact: a Write that does not return `ok` leaves the stream untouched, and `ok n` means
+    n = len(p) bytes were appended to what the peer will read -/
+theorem write_count_is_what_the_peer_gets (cap : Nat) (stopped : Bool) (s : Dir) (p : Bytes) :
+    (∀ n, (s.write cap stopped p).1 = .ok n → n = p.length ∧ (s.write cap stopped p).2.written = s.written ++ p ∧
+        (s.write cap stopped p).2.chan = s.chan ++ [p]) ∧
+    ((∀ n, (s.write cap stopped p).1 ≠ .ok n) → (s.write cap stopped p).2 = s) := by
+  unfold Dir.write
+  by_cases h1 : stopped = true
+  · simp [h1]
+  · by_cases h2 : cap ≤ s.chan.length
+    · simp [h1, h2]
+    · simp [h1, h2]
 
 /-! ### non-vacuity (pipe) -/
 
